@@ -18,7 +18,7 @@ from zverif import battery as B
 from zverif import templates as T
 from zverif.api import assume, check, fail, reached, untraced, choose, realize, note, decide, traced
 from zverif.spec import Harness, shards
-from zverif.symenv import codec, vfs
+from zverif.symenv import codec, vfs, locks
 
 codec.install()
 DATA = '/db/Data.fs'
@@ -305,6 +305,121 @@ def h_metadata(lu: int, ld: int, le: int, storage: str) -> None:
     reached()
 
 
+def h_fault_late(f: int, template: str, where: str) -> None:
+    """A fault while LEAVING two-phase commit: the f-th low-level operation of tpc_abort (after a vote)
+    fails, or the callback tpc_finish runs before committing raises.  The failed transaction must not
+    leak into the next one: after the next commit (and after reopen) the storage shows exactly the
+    history plus that commit."""
+    assume(f >= 0)
+    if where != 'abort':
+        assume(f == 0)
+    with untraced():
+        env, s, h = T.build_file(template)
+        fs = env.fs
+        t = T.meta(b'u', b'doomed')
+        s.tpc_begin(t)
+        for o, d in RECS:
+            s.store(o, h.serial.get(o, T.Z64), d, '', t)
+        s.tpc_vote(t)
+    if where == 'abort':
+        fs.fail_at = fs.nops + f
+    with untraced():
+        fired = False
+        if where == 'abort':
+            try:
+                s.tpc_abort(t)
+            except OSError:
+                fired = True
+            fs.fail_at = None
+            assume(bool(fs.fault_log) == fired)
+            assume(fired)                      # f beyond the last operation of the abort: nothing to see
+            note('fired', fs.fault_log[-1][1])
+        else:
+
+            class Boom(Exception):
+                pass
+
+            def cb(tid):
+                raise Boom('callback failed before the commit point')
+            try:
+                s.tpc_finish(t, cb)
+                fail('tpc_finish swallowed the exception of its callback')
+            except Boom:
+                pass
+            s.tpc_abort(t)            # harmless: the transaction is over either way
+        for L in _locks(s):
+            check(_lock_free(L), 'commit lock still held after a failed ' + where)
+        # nothing of the failed transaction is visible ...
+        B.full_battery(s, h.m)
+        # ... and nothing of it leaks into the next transaction (shorter than the failed one, and longer)
+        h.commit([(T.oid(2), b'n')], b'next', b'short')
+        B.full_battery(s, h.m)
+        h.commit([(T.oid(1), b'next-long-' * 12), (T.oid(43), b'z' * 50)], b'next', b'long')
+        B.full_battery(s, h.m)
+        s.close()
+        s2 = env.filestorage()
+        B.full_battery(s2, h.m)
+        s2.close()
+    reached()
+
+
+def h_abort_reader(at: int, template: str) -> None:
+    """A reader (pooled, buffered file handle) loads at a solver-chosen point while a transaction votes and
+    is aborted and the next transaction commits at the same file position: the reader must never be
+    served bytes of the aborted transaction."""
+    assume(at >= 0)
+    with untraced():
+        from ZODB.utils import load_current
+        env = T.Env()
+        sch = locks.install(env.fs)
+        try:
+            s = env.filestorage()
+            h = T.Hist(s)
+            T.FILE_TEMPLATES[template](h)
+            o = T.oid(1)
+            seen = []
+
+            def read():
+                seen.append(load_current(s, o))
+            read()                                   # a pooled handle exists, positioned near the end of the file
+            sch.add(at, read, tid=1, name='reader load')
+            sch.start()
+            try:
+                t = T.meta(b'u', b'aborted after vote')
+                s.tpc_begin(t)
+                s.store(o, h.serial[o], b'ABORTED-' + b'a' * 24, '', t)
+                s.tpc_vote(t)
+                sch.point('api')
+                s.tpc_abort(t)
+                sch.point('api')
+                h.commit([(o, b'COMMITTED' + b'c' * 23)], b'u', b'aborted after vote')     # same length, same position
+                sch.point('api')
+            except locks.Blocked:
+                note('blocked')
+                sch.stop()
+                assume(False)
+            sch.stop()
+            assume(not sch.pending)
+            note('at', sch.trace[0][1])
+            for d, tid in seen:
+                check(not d.startswith(b'ABORTED'), 'reader was served data of an aborted transaction', d[:12], sch.trace)
+            got = load_current(s, o)
+            check(got == h.m.load(o), 'reader is served stale bytes of an aborted transaction after the next commit', got[0][:12], sch.trace)
+            B.full_battery(s, h.m)
+        finally:
+            locks.uninstall()
+            env.fs.hook = None
+    reached()
+
+
+def known_abort_truncate_fault(body):
+    """known_findings.jsonl classifier: the truncate inside tpc_abort fails and a later load through a pooled
+    reader handle misreads the overwritten bytes (CorruptedDataError).  Any other failure in that shard - e.g.
+    records of the failed transaction showing up in the next one - is NOT this finding."""
+    return (body.get('harness') == 'fault_late' and (body.get('fixed') or {}).get('where') == 'abort'
+            and 'Error reading' in (body.get('message') or ''))
+
+
 HARNESSES = [
     Harness('fault', h_fault,
             decides='an I/O error at any low-level operation of begin/store/vote (optionally after a short write): after '
@@ -317,6 +432,22 @@ HARNESSES = [
                   'FilePool.flush'],
             quick=dict(timeout=120, shards=shards(template=['T1', 'T4'], nrec=[1, 3])),
             thorough=dict(timeout=600, shards=shards(template=['T1', 'T2', 'T4', 'T6'], nrec=[1, 2, 3]))),
+    Harness('fault_late', h_fault_late,
+            decides='a fault while leaving 2PC (any low-level operation of tpc_abort after a vote fails; the tpc_finish callback '
+                    'raises): locks are free, nothing of the failed transaction is visible, and nothing of it leaks into the next '
+                    'transactions or survives a reopen',
+            symbolic='f = index of the failing operation of tpc_abort', bounds='templates per shard; 3 records in the failed transaction',
+            oracle='RevStore battery after the next short and long commits and after reopen',
+            code=['BaseStorage.tpc_abort/tpc_begin (_clear_temp)', 'FileStorage._abort/tpc_finish/_clear_temp'],
+            quick=dict(timeout=100, shards=shards(template=['T1'], where=['abort', 'finish_cb'])),
+            thorough=dict(timeout=300, shards=shards(template=['T1', 'T4'], where=['abort', 'finish_cb']))),
+    Harness('abort_reader', h_abort_reader,
+            decides='a reader using the pooled buffered file handles, loading at any point while a transaction votes, aborts and '
+                    'the next one commits at the same position, is never served bytes of the aborted transaction',
+            symbolic='at = injection point of the reader\'s load over all lock/file-operation yield points', bounds='template T1; one reader',
+            oracle='RevStore', code=['FileStorage._abort (FilePool.flush)', 'FilePool.get/empty/write_lock', 'FileStorage.load'],
+            quick=dict(timeout=100, shards=shards(template=['T1'])),
+            thorough=dict(timeout=300, shards=shards(template=['T1', 'T2']))),
     Harness('abort_phase', h_abort_phase,
             decides='abort after begin / stores / conflict / vote / foreign abort leaves the pre-transaction state and a free lock',
             symbolic='phase selector (0..5)', bounds='history T1 (+ one demo change)', oracle='pre-state bytes + RevStore battery',
